@@ -131,6 +131,9 @@ class World:
         self.other = w.mknode(d, "other", self.g2, stype="F")
         self.acq = w.mkacq("acq")
         self.files, self.copies, self.paths = [], [], []
+        # file ids and copy ids must not coincide by construction (the bookkeeping is keyed by file id): a few file records without copies come first
+        for j in range(3):
+            w.mkfile(self.acq, f"zz_unused{j}", b"")
         for i in range(nf):
             content = w.content_of(i + 1, sizes[i])
             f = w.mkfile(self.acq, f"f{i}", content)
